@@ -578,19 +578,21 @@ def family_overlay(tier):
     yield [], ('frame_overlay', True, False, False)
     yield [], ('series_overlay', True, False, False)
     kinds = 'fOMiUb'
-    for labs in ([('a', 'b', 'c'), ('b', 'c', 'd'), ('c', 'a', 'b'), ('x',)], [('a', 2, 'c'), (2, 'c', 'd'), ('c', 'a', 2), ('x', 3)]):
-      for n in (1, 2, 3):
-        for ks in itertools.product(kinds, repeat=n):
-              if tier == 'quick' and n == 3 and ks[0] not in 'fO':
-                  continue
-              for ls in itertools.product(labs, repeat=n - 1):
-                  pats = [range(1 << (len(l) if k in NULLABLE else 0)) for k, l in zip(ks, (labs[0],) + ls)]
-                  for ps in itertools.product(*pats):
-                      c += 1
-                      if n == 3 and c % (8 if tier == 'quick' else 2):
-                          continue
-                      specs = [sspec(k, l, kd, 'nm', miss=p) for k, (kd, l, p) in enumerate(zip(ks, (labs[0],) + ls, ps))]
-                      yield specs, ('series_overlay', c % 3 != 0, c % 7 == 0, c % 2 == 0)
+    label_schemes = ([('a', 'b', 'c'), ('b', 'c', 'd'), ('c', 'a', 'b'), ('x',)],        # <U1 index
+                     [('a', 2, 'c'), (2, 'c', 'd'), ('c', 'a', 2), ('x', 3)])             # object index
+    for labs in label_schemes:
+        for n in (1, 2, 3):
+            for ks in itertools.product(kinds, repeat=n):
+                if tier == 'quick' and n == 3 and ks[0] not in 'fO':
+                    continue
+                for ls in itertools.product(labs, repeat=n - 1):
+                    pats = [range(1 << (len(l) if k in NULLABLE else 0)) for k, l in zip(ks, (labs[0],) + ls)]
+                    for ps in itertools.product(*pats):
+                        c += 1
+                        if n == 3 and c % (8 if tier == 'quick' else 2):
+                            continue
+                        specs = [sspec(k, l, kd, 'nm', miss=p) for k, (kd, l, p) in enumerate(zip(ks, (labs[0],) + ls, ps))]
+                        yield specs, ('series_overlay', c % 3 != 0, c % 7 == 0, c % 2 == 0)
 
 
 def cases(tier):
